@@ -630,7 +630,7 @@ func ProvisionalName(expr *Expr, m *Model) string {
 	case Set:
 		var sb strings.Builder
 		sb.WriteString("setof_")
-		appendSetName(m.Sets[expr.SetIndex], m, &sb)
+		appendSetName(m.Sets[expr.SetIndex], m, &sb, make(map[*TokenSet]bool))
 		return sb.String()
 	case Lookahead:
 		var sb strings.Builder
@@ -648,7 +648,14 @@ func ProvisionalName(expr *Expr, m *Model) string {
 	return ""
 }
 
-func appendSetName(ts *TokenSet, m *Model, out *strings.Builder) {
+// appendSetName spells a token set. Named sets can be recursive, "active" holds the sets being spelled.
+func appendSetName(ts *TokenSet, m *Model, out *strings.Builder, active map[*TokenSet]bool) {
+	if active[ts] {
+		out.WriteString("rec")
+		return
+	}
+	active[ts] = true
+	defer delete(active, ts)
 	switch ts.Kind {
 	case Any:
 		out.WriteString(m.Ref(ts.Symbol, nil /*args*/))
@@ -666,7 +673,7 @@ func appendSetName(ts *TokenSet, m *Model, out *strings.Builder) {
 		out.WriteString(m.Ref(ts.Symbol, nil /*args*/))
 	case Complement:
 		out.WriteString("not_")
-		appendSetName(ts.Sub[0], m, out)
+		appendSetName(ts.Sub[0], m, out, active)
 	case Union, Intersection:
 		for i, sub := range ts.Sub {
 			if i > 0 {
@@ -676,7 +683,7 @@ func appendSetName(ts *TokenSet, m *Model, out *strings.Builder) {
 					out.WriteString("_")
 				}
 			}
-			appendSetName(sub, m, out)
+			appendSetName(sub, m, out, active)
 		}
 	default:
 		log.Fatalf("cannot compute name for TokenSet Kind=%v", ts.Kind)
